@@ -1,7 +1,7 @@
 """Properties not (yet) claimed, with the reason. Entries for claimed properties are ignored."""
 NOT_BUILT = "check not built yet in this round (planned, see DESIGN.md §3/§5); not claimed until its harness exists and passes on the unchanged tree"
 NA = {
-    "C18": "bech32 glue over &str/bytes of std types: engine S cannot make them symbolic and Kani does not get through one payload byte of the bech32 crate's Fe32 iterator chain in 20 min / 20 GB (DESIGN.md §0.1, §3 C18); name-to-address injectivity is SHA-256 collision resistance",
+    "C18": "bech32 glue over &str/bytes of std types: engine S cannot make them symbolic and Kani does not get through one payload byte of the bech32 crate's Fe32 iterator chain in 20 min / 20 GB (DESIGN.md §0.1, §7); name-to-address injectivity is SHA-256 collision resistance",
 }
 for i in range(1, 21):
     NA.setdefault("C%02d" % i, NOT_BUILT)
